@@ -401,6 +401,7 @@ func (V *Verifier) DecodeSafe(mt *MsgType, props []string) []*Obligation {
 		en := errNilOf(res)
 		u := s.get(buf).Seq
 		x.oblige(s, "ensures", "suffix@"+tag, App("suffixof", SBool, u, u0), "what is left unread is a suffix of the input")
+		x.oblige(s, "ensures", "min-consumption@"+tag, Implies(en, Le(Add(Len(u), IntC(V.minWidth(mt))), Len(u0))), fmt.Sprintf("a successful decode consumes at least the %d fixed bytes of the format", V.minWidth(mt)))
 		if V.checkAlloc {
 		x.obligeProps(s, "alloc", "alloc/success@"+tag, Implies(en, Le(s.alloc, Add(IntC(allocB), Mul(IntC(allocA), Sub(Len(u0), Len(u)))))), "allocation on success is bounded by a constant plus a multiple of the bytes consumed", []string{"C10"})
 		x.obligeProps(s, "alloc", "alloc/failure@"+tag, Implies(Not(en), Le(s.alloc, Add(IntC(allocB), Mul(IntC(allocA), Len(u0))))), "allocation on failure is bounded by a constant plus a multiple of the bytes present", []string{"C10"})
@@ -435,6 +436,11 @@ func (V *Verifier) DecodeRE(mt *MsgType, props []string) []*Obligation {
 			if !s.written[fmt.Sprintf("%d.%d", q.ID, i)] {
 				if _, isStruct := f.Type().Underlying().(*types.Struct); isStruct {
 					continue
+				}
+				if fv, ok := s.get(q).Fields[i]; ok {
+					if o, _ := dynOf(fv); o != nil && s.written[fmt.Sprintf("obj%d", o.ID)] {
+						continue // a reused nested part was fully re-decoded in place
+					}
 				}
 				x.obligeProps(s, "frame", fmt.Sprintf("field-overwritten(%s)@%s", f.Name(), tag), False, "every field of the receiver is assigned on a successful decode", []string{"C15"})
 			}
@@ -476,7 +482,7 @@ func (V *Verifier) DecodeRE(mt *MsgType, props []string) []*Obligation {
 					}
 				}
 			}
-			ex.oblige(e2, "ensures", "reproduces-consumed-bytes@"+etag, Eq(u0, Cat(append(append([]*Term{}, adj...), ufinal)...)), "encoding the decoded message reproduces the bytes consumed (self-computed length/checksum fields excepted)")
+			ex.oblige(e2, "ensures", "reproduces-consumed-bytes@"+etag, Eq(expandSeq(e2, u0), Cat(append(append([]*Term{}, adj...), ufinal)...)), "encoding the decoded message reproduces the bytes consumed (self-computed length/checksum fields excepted)")
 		}
 		ex.execAll(es)
 		out = append(out, ex.obs...)
@@ -625,4 +631,59 @@ func (V *Verifier) outsideRoundTripDomain(mt *MsgType, enc *EncInfo, path *EncPa
 		}
 	}
 	return false
+}
+
+// minWidth: a lower bound on the number of bytes every encoding of the type occupies, computed from
+// the extracted format (sum of the fixed-width segments). Used as the callee fact minwidth(tag) and
+// proved for the type itself by DecodeSafe (a successful Decode consumes at least that much).
+func (V *Verifier) minWidth(mt *MsgType) int64 {
+	if V.minW == nil {
+		V.minW = map[string]int64{}
+	}
+	if w, ok := V.minW[mt.Name]; ok {
+		return w
+	}
+	V.minW[mt.Name] = 0 // cycle guard
+	enc := V.EncodeOK(mt, nil)
+	best := int64(-1)
+	for _, p := range enc.Paths {
+		var w int64
+		for _, s := range p.Segs {
+			if l := SynLen(s); l != nil && l.IsConst() {
+				w += l.Val.Int64()
+			} else if s.Op == "app" && s.Name == "Wd" && s.Args[0].Op == "app" {
+				if sub := V.msgTypeByTag(s.Args[0].Name); sub != nil {
+					w += V.minWidth(sub)
+				}
+			}
+		}
+		if best < 0 || w < best {
+			best = w
+		}
+	}
+	if best < 0 {
+		best = 0
+	}
+	V.minW[mt.Name] = best
+	return best
+}
+
+func (V *Verifier) msgTypeByTag(tagName string) *MsgType {
+	if V.byTag == nil {
+		V.byTag = map[string]*MsgType{}
+		for _, mt := range V.messageTypes() {
+			V.byTag["tag_"+mt.Name] = mt
+		}
+	}
+	return V.byTag[tagName]
+}
+
+// minWidthTerm resolves minwidth(tag) to a numeral when the tag is a known message type.
+func (V *Verifier) minWidthTerm(tag *Term) *Term {
+	if tag.Op == "app" && len(tag.Args) == 0 {
+		if mt := V.msgTypeByTag(tag.Name); mt != nil {
+			return IntC(V.minWidth(mt))
+		}
+	}
+	return App("minwidth", SInt, tag)
 }
